@@ -430,3 +430,24 @@ func (p *pathCtx) mergeAdjacent(a, b symStr) (symStr, bool) {
 	}
 	return symStr{}, false
 }
+
+// strIndexOfSym is strings.Index with a symbolic needle.
+func (p *pathCtx) strIndexOfSym(s, sep symStr) *Term {
+	ts := p.ts
+	S, P := p.viewBytes(s), p.viewBytes(sep)
+	w := Sort(bits.Len(uint(s.max)) + 2)
+	r := ts.BV(^uint64(0), w)
+	for i := s.max; i >= 0; i-- {
+		m := ts.Cmp(OpBvUle, ts.BvBin(OpBvAdd, ts.BV(uint64(i), 64), sep.n), s.n)
+		for j := 0; j < sep.max && !m.IsFalse(); j++ {
+			in := ts.Cmp(OpBvUlt, ts.BV(uint64(j), 64), sep.n)
+			if i+j < len(S) {
+				m = ts.And(m, ts.Implies(in, ts.Eq(S[i+j], P[j])))
+			} else {
+				m = ts.And(m, ts.Not(in))
+			}
+		}
+		r = ts.Ite(m, ts.BV(uint64(i), w), r)
+	}
+	return ts.Sext(r, int(64-w))
+}
